@@ -21,6 +21,9 @@ pub enum DecorEdit {
     TruthNum(u8, F),
     BudgetLen(u8),
     BudgetNum(u8, F),
+    /// move one number by one unit in the last place (near-miss numbers)
+    TruthUlp(u8),
+    BudgetUlp(u8),
     Kind(u8),
 }
 
@@ -168,6 +171,24 @@ pub fn apply_decor(v: &ND, e: &DecorEdit) -> ND {
                 if !s.truth.is_empty() {
                     let k = (*i as usize) % s.truth.len();
                     s.truth[k] = if s.truth[k] == *x { F::of(0.123) } else { *x };
+                }
+            }
+        }
+        DecorEdit::TruthUlp(i) => {
+            if let Some(s) = sen(&mut out) {
+                if !s.truth.is_empty() {
+                    let k = (*i as usize) % s.truth.len();
+                    let x = s.truth[k].f();
+                    s.truth[k] = F::of(if x >= 1.0 { f64::from_bits(x.to_bits() - 1) } else { f64::from_bits(x.to_bits() + 1) });
+                }
+            }
+        }
+        DecorEdit::BudgetUlp(i) => {
+            if let ND::Task(t) = &mut out {
+                if !t.budget.is_empty() {
+                    let k = (*i as usize) % t.budget.len();
+                    let x = t.budget[k].f();
+                    t.budget[k] = F::of(if x >= 1.0 { f64::from_bits(x.to_bits() - 1) } else { f64::from_bits(x.to_bits() + 1) });
                 }
             }
         }
@@ -388,6 +409,8 @@ fn decor() -> BoxedStrategy<DecorEdit> {
         8 => any::<u8>().prop_map(DecorEdit::BudgetLen),
         8 => (any::<u8>(), gen::unit()).prop_map(|(i, x)| DecorEdit::BudgetNum(i, x)),
         8 => any::<u8>().prop_map(DecorEdit::Kind),
+        5 => any::<u8>().prop_map(DecorEdit::TruthUlp),
+        5 => any::<u8>().prop_map(DecorEdit::BudgetUlp),
     ]
     .boxed()
 }
